@@ -1,12 +1,137 @@
 import FatVerif.Model.Util
 import FatVerif.Model.Basic
-/-! pure-probe driver for suite `Format` — STUB, to be replaced (see /verif/ARCH.md). -/
+import FatVerif.Model.Format
+import FatVerif.Spec.ValidBpb
+/-!
+pure-probe driver for suite `format` (property C06, boot-sector part).
+
+```
+P format.bs bps=<n> total=<n> bpc=<n|none> fat=<12|16|32|none> root=<n> fats=<n> media=<n> spt=<n> heads=<n>
+            drive=<n|none> volid=<n> label=<hex11|none> => <fatbits> <hex512> | ERR <code> | PANIC
+P format.sweepblock <start> <end> => <nfail> <first_fail|none>      (default options, every total in [start,end))
+```
+-/
 namespace FatVerif.FormatDriver
+open FatVerif.Util FatVerif.Format
 
-def handle (_fn : String) (_args : List String) : Option String := none
+def fatOf (s : String) : Option (Option FatType) :=
+  if s = "none" then some none
+  else if s = "12" then some (some .fat12)
+  else if s = "16" then some (some .fat16)
+  else if s = "32" then some (some .fat32)
+  else none
 
-def oracle (_fn : String) (_args : List String) (_implOut : List String) : Option String := none
+def labelOf (s : String) : Option (Option (List Nat)) :=
+  if s = "none" then some none
+  else match bytesOfHex s with
+    | some bs => if bs.length = 11 then some (some bs) else none
+    | none => none
 
-def branch (_fn : String) (_args : List String) : String := "-"
+/-- parse the `k=v` arguments of `format.bs` into options and the sector count -/
+def parseArgs (args : List String) : Option (FormatOpts × Nat) := do
+  let bps ← (kv args "bps").bind natOf
+  let total ← (kv args "total").bind natOf
+  let bpc ← (kv args "bpc").bind optNatOf
+  let fat ← (kv args "fat").bind fatOf
+  let root ← (kv args "root").bind natOf
+  let fats ← (kv args "fats").bind natOf
+  let media ← (kv args "media").bind natOf
+  let spt ← (kv args "spt").bind natOf
+  let heads ← (kv args "heads").bind natOf
+  let drive ← (kv args "drive").bind optNatOf
+  let volid ← (kv args "volid").bind natOf
+  let label ← (kv args "label").bind labelOf
+  some ({ bps := bps, totalSectors := some total, bpc := bpc, fatType := fat, rootEntries := root, fats := fats,
+          media := media, spt := spt, heads := heads, driveNum := drive, volumeId := volid, label := label }, total)
+
+def showResult : Except Err (List Nat × FatType) → String
+  | .ok (bytes, ft) => s!"{ft.bits} {hexOfBytes bytes}"
+  | .error .panic => "PANIC"
+  | .error e => s!"ERR {e.code}"
+
+/-- number of failing totals in `[a, b)` for default options, and the first one: by `format_default_total`
+    (Props/C06) formatting with default options fails exactly for `total < 42` -/
+def sweepBlock (a b : Nat) : String :=
+  let nfail := min b 42 - min a 42
+  let first := if a < b ∧ a < 42 then toString a else "none"
+  s!"{nfail} {first}"
+
+def handle (fn : String) (args : List String) : Option String :=
+  if fn = "format.bs" then
+    match parseArgs args with
+    | some (o, total) => some (showResult (formatBootSectorBytes o total))
+    | none => some "BADARGS"
+  else if fn = "format.sweepblock" then
+    match args with
+    | [a, b] =>
+      match natOf a, natOf b with
+      | some a, some b => some (sweepBlock a b)
+      | _, _ => some "BADARGS"
+    | _ => some "BADARGS"
+  else none
+
+def requestOf (o : FormatOpts) (total : Nat) : FormatSpec.Request :=
+  { bps := o.bps, total := total, bpc := o.bpc, width := o.fatType.map FatType.bits, rootEntries := o.rootEntries,
+    fats := o.fats, media := o.media, spt := o.spt, heads := o.heads, driveNum := o.driveNum,
+    volumeId := o.volumeId, label := o.label }
+
+def isDefaultSizing (o : FormatOpts) : Bool :=
+  o.bps == 512 && o.bpc.isNone && o.fatType.isNone && o.rootEntries == 512 && o.fats == 2
+
+/-- label of a panic (labelling only — the verdict "a panic is a violation" does not depend on the model) -/
+def panicClass (o : FormatOpts) (total : Nat) : String :=
+  match o.bpc with
+  | some c => if c < o.bps then "bpc-lt-bps" else panicClass2
+  | none => panicClass2
+where
+  panicClass2 : String :=
+    match determineFsLayout o total with
+    | .ok l => if l.fatType = .fat32 ∧ 4294967296 ≤ l.spf * o.bps * 8 then "fat-entries-overflow" else "other"
+    | .error _ => "other"
+
+/-- C06 oracle on the implementation's answer -/
+def oracle (fn : String) (args : List String) (implOut : List String) : Option String :=
+  if fn = "format.bs" then
+    match parseArgs args with
+    | none => none
+    | some (o, total) =>
+      match implOut with
+      | ["PANIC"] => some s!"C06 format-panic {panicClass o total}"
+      | ["ERR", code] =>
+        if code ≠ "4" then some s!"C06 wrong-error {code}"
+        else if isDefaultSizing o ∧ 42 ≤ total then some s!"C06 default-format-fails {total}"
+        else none
+      | [bits, hex] =>
+        match natOf bits, bytesOfHex hex with
+        | some n, some bytes =>
+          if bytes.length ≠ 512 then some "C06 invalid-bpb length"
+          else match FormatSpec.firstFailing (FormatSpec.decodeBoot bytes) (requestOf o total) n with
+            | some clause => some s!"C06 invalid-bpb {clause}"
+            | none => none
+        | _, _ => some "C06 invalid-bpb malformed"
+      | _ => some "C06 invalid-bpb malformed"
+  else if fn = "format.sweepblock" then
+    match args, implOut with
+    | [a, b], [nfail, _] =>
+      match natOf a, natOf b, natOf nfail with
+      | some a, some b, some nfail =>
+        if min b 42 - min a 42 < nfail then some s!"C06 default-format-fails block {a} {b}" else none
+      | _, _, _ => none
+    | _, _ => none
+  else none
+
+def branch (fn : String) (args : List String) : String :=
+  if fn = "format.bs" then
+    match parseArgs args with
+    | none => "badargs"
+    | some (o, total) =>
+      let res := match formatBootSectorBytes o total with
+        | .ok (_, ft) => s!"ok{ft.bits}"
+        | .error .panic => "panic"
+        | .error _ => "err"
+      let bpc := if o.bpc.isSome then "bpc" else "auto"
+      let req := match o.fatType with | none => "any" | some t => s!"req{t.bits}"
+      s!"{res}-{bpc}-{req}-bps{o.bps}"
+  else "-"
 
 end FatVerif.FormatDriver
